@@ -16,6 +16,7 @@ fn main() {
         "C04" => transport_eng::run(&args, "C04"),
         "C07" => vfs_eng::run(&args, "C07"),
         "C14" => vfs_eng::run(&args, "C14"),
+        "C19" => vfs_eng::c19(&args),
         "C17" => transport_eng::run(&args, "C17"),
         p => {
             eprintln!("unknown property {}", p);
